@@ -18,7 +18,9 @@ import (
 	"time"
 
 	cfg "github.com/tendermint/tendermint/config"
+	cstypes "github.com/tendermint/tendermint/consensus/types"
 	vg "github.com/tendermint/tendermint/internal/verifgen"
+	sm "github.com/tendermint/tendermint/state"
 	"github.com/tendermint/tendermint/p2p"
 	tmproto "github.com/tendermint/tendermint/proto/tendermint/types"
 	"github.com/tendermint/tendermint/types"
@@ -643,12 +645,137 @@ func TestVerifC03Sync(t *testing.T) {
 	}
 }
 
+// c03F70Prefix: the directed asynchronous prefix of finding F70 (4 equal validators; with the
+// rotation q of height 1: F = q[0] faulty, C = q[1], D = q[2], A = q[3] correct).  It leaves A in
+// round 2 locked on X since round 0 while it holds the polka for Y of round 1 (learned while it
+// was in round 0; +2/3-any prevotes of round 2 carried it past round 1 before it prevoted there),
+// and C, D in round 2 locked on Y since round 1.  Before the repair A then prevoted X for ever:
+// with F silent no block gets +2/3 although 3/4 of the power is correct and everything is
+// delivered.  Returns whether the intended locks were reached.
+func c03F70Prefix(r *vg.Rand, state sm.State, pvs []types.MockPV, net *c01Net) bool {
+	q := c01Rotation(state, 4)
+	F, C, D, A := q[0], q[1], q[2], q[3]
+	nodeOf := map[int]*c02Harness{}
+	for _, h := range net.nodes {
+		nodeOf[h.me] = h
+	}
+	hA, hC, hD := nodeOf[A], nodeOf[C], nodeOf[D]
+	if hA == nil || hC == nil || hD == nil {
+		return false
+	}
+	fpeer := p2p.ID(fmt.Sprintf("p%d", F+1))
+	dl := func(h *c02Harness, mi msgInfo) {
+		h.got = append(h.got, mi)
+		tm, d := h.inputTerm(mi)
+		h.deliver(tm, d, func() { h.cs.handleMsg(mi) })
+	}
+	pull := func(h *c02Harness, pred func(mi msgInfo) bool) {
+		for {
+			idx := -1
+			for i, mi := range net.inbox[h] {
+				if pred(mi) {
+					idx = i
+					break
+				}
+			}
+			if idx < 0 {
+				return
+			}
+			mi := net.inbox[h][idx]
+			net.inbox[h] = append(net.inbox[h][:idx:idx], net.inbox[h][idx+1:]...)
+			dl(h, mi)
+		}
+	}
+	votes := func(ty tmproto.SignedMsgType, round int32, from ...int) func(msgInfo) bool {
+		return func(mi msgInfo) bool { return isVote(mi, ty, round, setOf(from)) }
+	}
+	blockOf := func(round int32) func(msgInfo) bool {
+		return func(mi msgInfo) bool {
+			switch m := mi.Msg.(type) {
+			case *ProposalMessage:
+				return m.Proposal.Round == round
+			case *BlockPartMessage:
+				return m.Round == round
+			}
+			return false
+		}
+	}
+	fire := func(h *c02Harness, step cstypes.RoundStepType) {
+		s := h.ticker.scheduled
+		for i := len(s) - 1; i >= 0; i-- {
+			if s[i].Height == h.cs.Height && s[i].Round == h.cs.Round && s[i].Step == step {
+				h.fire(s[i], "timeout")
+				return
+			}
+		}
+	}
+	fVote := func(ty tmproto.SignedMsgType, round int32, bid types.BlockID) {
+		net.publish(nil, msgInfo{&VoteMessage{hA.mkVote(r, F, ty, 1, round, bid)}, fpeer})
+	}
+	PV, PC := tmproto.PrevoteType, tmproto.PrecommitType
+	// F's proposal X of round 0 and its prevote for X
+	pkF, _ := pvs[F].GetPubKey()
+	bx, psx := hA.cs.state.MakeBlock(1, []types.Tx{types.Tx("x=1")}, types.NewCommit(0, 0, types.BlockID{}, nil), nil, pkF.Address())
+	X := hA.register(bx, psx)
+	bX := types.BlockID{Hash: X.block.Hash(), PartSetHeader: X.parts.Header()}
+	prop := types.NewProposal(1, 0, -1, bX)
+	pp := prop.ToProto()
+	if err := pvs[F].SignProposal(state.ChainID, pp); err != nil {
+		return false
+	}
+	prop.Signature = pp.Signature
+	net.publish(nil, msgInfo{&ProposalMessage{prop}, fpeer})
+	for i := 0; i < int(X.parts.Total()); i++ {
+		net.publish(nil, msgInfo{&BlockPartMessage{1, 0, X.parts.GetPart(i)}, fpeer})
+	}
+	fVote(PV, 0, bX)
+	// round 0: A and C get X, D does not; only A sees the polka (C, F, itself) and locks X
+	for _, h := range []*c02Harness{hA, hC, hD} {
+		fire(h, cstypes.RoundStepNewHeight)
+	}
+	pull(hA, blockOf(0))
+	pull(hC, blockOf(0))
+	fire(hD, cstypes.RoundStepPropose)
+	pull(hA, votes(PV, 0, C, F))
+	pull(hC, votes(PV, 0, D, F))
+	fire(hC, cstypes.RoundStepPrevoteWait)
+	pull(hD, votes(PV, 0, C, F))
+	fire(hD, cstypes.RoundStepPrevoteWait)
+	pull(hC, votes(PC, 0, D, A))
+	fire(hC, cstypes.RoundStepPrecommitWait) // C enters round 1 and proposes Y
+	pull(hD, votes(PC, 0, C, A))
+	fire(hD, cstypes.RoundStepPrecommitWait)
+	if hC.cs.ProposalBlock == nil || hC.cs.Round != 1 {
+		return false
+	}
+	bY := types.BlockID{Hash: hC.cs.ProposalBlock.Hash(), PartSetHeader: hC.cs.ProposalBlockParts.Header()}
+	// round 1: C and D lock Y; A learns the polka for Y while still in round 0
+	pull(hD, blockOf(1))
+	fVote(PV, 1, bY)
+	pull(hC, votes(PV, 1, D, F))
+	pull(hD, votes(PV, 1, C, F))
+	pull(hA, votes(PV, 1, C, D, F))
+	fVote(PC, 1, types.BlockID{})
+	pull(hC, votes(PC, 1, D, F))
+	fire(hC, cstypes.RoundStepPrecommitWait)
+	pull(hD, votes(PC, 1, C, F))
+	fire(hD, cstypes.RoundStepPrecommitWait) // D enters round 2 and re-proposes Y with POL round 1
+	// round 2: +2/3-any prevotes carry A past round 1 before it prevoted there
+	pull(hC, blockOf(2))
+	fVote(PV, 2, types.BlockID{})
+	pull(hA, votes(PV, 2, C, D, F))
+	return hA.cs.Round == 2 && hA.cs.LockedRound == 0 && hA.cs.LockedBlock != nil && hA.cs.LockedBlock.HashesTo(bX.Hash) &&
+		hC.cs.LockedRound == 1 && hC.cs.LockedBlock != nil && hC.cs.LockedBlock.HashesTo(bY.Hash) &&
+		hD.cs.LockedRound == 1 && hD.cs.LockedBlock != nil && hD.cs.LockedBlock.HashesTo(bY.Hash)
+}
+
 // c03Run: an adversarial asynchronous prefix (as in C01, equal powers so that the proposer
 // rotation is a plain round robin) followed by a synchronous suffix.
 func c03Run(r *vg.Rand, k int) (term, descr string, allDecided bool, kind string) {
 	nv := 4 + r.Intn(3)
 	scripted := k%4 == 3
-	if scripted {
+	directed := k%20 == 9 // the directed scenario of finding F70 (a lock carried past the polka that releases it)
+	if scripted || directed {
 		nv = 4
 	}
 	powers := make([]int64, nv)
@@ -660,7 +787,10 @@ func c03Run(r *vg.Rand, k int) (term, descr string, allDecided bool, kind string
 	nf := r.Intn((nv-1)/3 + 1) // 0 .. floor((n-1)/3) faulty validators of equal power
 	var opening []c01RoundPlan
 	opName := ""
-	if scripted {
+	if directed {
+		net.faulty = []int{c01Rotation(state, 4)[0]}
+		opName = "f70-lock-carried-past-the-releasing-polka"
+	} else if scripted {
 		var f int
 		f, opening, opName = c01Opening(r, c01Rotation(state, 4), (k/4)%4)
 		net.faulty = []int{f}
@@ -692,7 +822,11 @@ func c03Run(r *vg.Rand, k int) (term, descr string, allDecided bool, kind string
 	// asynchronous prefix: lossy, early timeouts, split-brain and equivocation
 	prefix := 150 + r.Intn(450)
 	withhold := r.Chance(50) // precommits never arrive during the prefix: nodes lock but cannot decide
-	if scripted {
+	directedOK := true
+	if directed {
+		directedOK = c03F70Prefix(r, state, pvs, net)
+		prefix = 0
+	} else if scripted {
 		c01RoundsRun(r, net, pvs, opening, len(opening)+r.Intn(3))
 		prefix = 0
 	} else {
@@ -728,6 +862,9 @@ func c03Run(r *vg.Rand, k int) (term, descr string, allDecided bool, kind string
 	}
 	syncByz := 30
 	if scripted && r.Bool() { // the faulty validators fall silent: termination must not depend on their help
+		syncByz = 0
+	}
+	if directed { // the faulty validator is silent from now on
 		syncByz = 0
 	}
 	c03Sync(r, net, pvs, h0, bound+2, syncByz)
@@ -801,6 +938,10 @@ func c03Run(r *vg.Rand, k int) (term, descr string, allDecided bool, kind string
 	if scripted {
 		kind = "rounds-" + opName + "/" + kind
 		fmt.Fprintf(&d, " prefix: round-structured adversary, opening %q, faulty activity during synchrony %d%%;", opName, syncByz)
+	}
+	if directed {
+		kind = "directed-" + opName + "/" + kind
+		fmt.Fprintf(&d, " prefix: DIRECTED scenario %q (finding F70; intended locks reached: %v): F proposes X in round 0, A locks X (prevotes of C and F), C and D see no polka and precommit nil; C proposes Y in round 1, C and D lock Y on the prevotes of C, D, F; A receives these three prevotes while still in round 0 (polka for Y recorded, no unlock, skip to round 1), then the round-2 prevotes of C, D (Y) and F (nil) (skip to round 2 without prevoting in round 1); from then on F is silent and every message is delivered;", opName, directedOK)
 	}
 	return term, d.String(), allDecided, kind
 }
